@@ -263,6 +263,28 @@ static const char *action_of(const std::string &pend) {
     return "Unknown";
 }
 
+
+// A pure atomic LOAD that the specification does not expect at this point (e.g. an added consistency check or a
+// re-read) cannot by itself change the protocol state: it is executed silently (at most twice per thread and step) so
+// that a behaviour-preserving extra load does not raise an alarm; whatever the thread does with the loaded value still
+// has to match the specification afterwards.
+static void absorb_extra_loads(World &w, const std::string &expected) {
+    JV exp = JReader(expected).parse();
+    const JV &pend = exp.at("pend");
+    for (auto &kv : pend.m) {
+        auto it = w.tid.find(kv.first);
+        if (it == w.tid.end()) continue;
+        for (int i = 0; i < 2; i++) {
+            int t = it->second;
+            if (!w.sched.parked(t) || w.sched.pending_after(t)) break;
+            const auto &e = w.sched.pending(t);
+            if (e.op != op_t::load && e.op != op_t::conv) break;
+            if (pend_of(w, kv.first, w.rkind.count(kv.first) != 0) == kv.second.as_str()) break;
+            w.sched.step(t);
+        }
+    }
+}
+
 static void run_one(const Scenario &sc, Reporter &rep, Explore *ex) {
     World w;
     for (auto &kv : sc.hdr.at("R").m) { w.rkind[kv.first] = kv.second.s; w.rres[kv.first] = "none"; }
@@ -400,7 +422,13 @@ static void run_one(const Scenario &sc, Reporter &rep, Explore *ex) {
             bad = true;
             break;
         }
+        // the acting thread may be parked at an unexpected pure load (see absorb_extra_loads): run it first
+        if (st.name != "CheckReady" && st.name != "DLoad")
+            for (int i = 0; i < 2 && w.sched.parked(t) && (w.sched.pending(t).op == op_t::load || w.sched.pending(t).op == op_t::conv); i++) w.sched.step(t);
+        (void) project(w);      // (learn the awaiter node address if the thread now waits at its CAS)
+        if (!w.sched.enabled(t)) { rep.diverge(k, "thread not enabled after an absorbed load got=" + project(w).dump()); bad = true; break; }
         w.sched.step(t);
+        absorb_extra_loads(w, st.expected);
         if (!rep.check(k, project(w))) bad = true;
     }
     // finish whatever is left (only after a divergence; paths end in terminal states)
